@@ -5,7 +5,7 @@ import Dawn.Ties.LoaderExpected
 Tie 1 for C06: the facts regenerated from `module.go` / `project.go` on this run are the ones the model
 (`Version.fixed`) is written against. Each theorem is re-checked by the kernel on every run; a change to the source
 that alters a fact breaks the corresponding obligation: walking the chain with the receiver's lock again (D4), returning
-from `load` without `done()` (D17), taking
+from `load` without `done()` (D24), taking
 `m.m` before the walk, turning the `for` around `cond.Wait` into an `if`, setting `loaded` outside the lock or after
 the `Broadcast`, publishing `loading` after the wait instead of before it, …
 -/
@@ -27,7 +27,7 @@ theorem walk_ok : Extracted.Loader.walkFirst = Loader.walkFirst .fixed ∧
 theorem done_shape_ok : Extracted.Loader.doneShape = Loader.doneShape := by decide
 
 /-- `load`: when the module's environment cannot be set up the error is returned through `m.done(nil, err)`, so waiters
-are woken and receive it (D17: it used to be a plain `return nil, err`) -/
+are woken and receive it (D24: it used to be a plain `return nil, err`) -/
 theorem env_error_done_ok : Extracted.Loader.envErrorPath = Loader.envErrorPath .fixed := by decide
 
 /-- everything else about the synchronisation skeletons: unchanged since the model was written -/
